@@ -50,7 +50,7 @@ def run(ctx):
         require_clean(r, c)
         ctx.add_tlc(r, c + " (laws of the matcher on every case)")
         vecs += r.vecs
-    lits = ["lit"]
+    lits = ["lit", "kw"]
     groups = {}
     for v in vecs:
         groups.setdefault(canon(v["rules"]), (v["rules"], [])) [1].append(v)
@@ -231,6 +231,26 @@ def gen_template(rng, pv, depth):
     return S.vlit(items) if rng.random() < 0.2 else S.vlist(items)
 
 
+def swap_literal(rng, d, lits):
+    """one occurrence of a literal identifier replaced by the macro's other literal identifier"""
+    import copy
+    d = copy.deepcopy(d)
+    occ = []
+    def walk(x):
+        if x["t"] == "sym" and x["x"] in lits:
+            occ.append(x)
+        elif x["t"] == "pair":
+            walk(x["a"]); walk(x["d"])
+        elif x["t"] == "vlit":
+            for y in x["xs"]:
+                walk(y)
+    walk(d)
+    if occ:
+        o = rng.choice(occ)
+        o["x"] = rng.choice([l for l in lits if l != o["x"]])
+    return d
+
+
 def mutate_datum(rng, d):
     import copy
     d = copy.deepcopy(d)
@@ -252,7 +272,7 @@ def mutate_datum(rng, d):
 
 
 def gen_rule_set(rng):
-    lits = ["lit", "else"][: rng.randint(1, 2)]
+    lits = ["lit", "else"][: rng.choice([1, 2, 2])]
     rules = []
     pats = []
     for _ in range(rng.randint(1, 6)):
@@ -270,7 +290,9 @@ def gen_rule_set(rng):
     for _ in range(rng.randint(4, 10)):
         r = rng.choice(rules)
         inst = instance(rng, S.vlist(r["pat"]), lits)
-        if rng.random() < 0.45:
+        if len(lits) > 1 and rng.random() < 0.3:
+            inst = swap_literal(rng, inst, lits)
+        elif rng.random() < 0.45:
             inst = mutate_datum(rng, inst)
         uses.append(elems(inst))
     return rules, lits, uses
@@ -278,7 +300,7 @@ def gen_rule_set(rng):
 
 def replay(ctx, case):
     rules, args = case["rules"], case["args"]
-    lits = case.get("lits", ["lit"])
+    lits = case.get("lits", ["lit", "kw"])
     res = run_rule_sets(ctx, [(rules, lits, [args])], "replay1")[0]
     log(macro_text(rules, lits)); log(use_text(args)); log("implementation:", json.dumps(res["results"][1:])[:800])
     return 1
